@@ -1,0 +1,97 @@
+//go:build verif
+
+package parser
+
+// Contracts (structured comments read by /verif/engine). Comment-only file.
+
+// ---------------------------------------------------------------------------
+// C16: offsets map to the right line and column, inside the file.
+
+//@ func searchInts
+//@ params a x
+//@ results r
+//@ requires sortedInts(a)
+//@ ensures[range] -1 <= r && r < len(a)
+//@ ensures[below] forall k int :: 0 <= k && k <= r ==> a[k] <= x
+//@ ensures[above] forall k int :: r < k && k < len(a) ==> a[k] > x
+//@ loop 0 invariant 0 <= i && i <= j && j <= len(a)
+//@ loop 0 invariant forall k int :: 0 <= k && k < i ==> a[k] <= x
+//@ loop 0 invariant forall k int :: j <= k && k < len(a) ==> a[k] > x
+//@ loop 0 decreases j - i
+//@ property C16
+
+//@ func (*SourceFile).unpack
+//@ params f offset
+//@ results filename line column
+//@ requires validFile(f) && 0 <= offset && offset <= f.Size
+//@ ensures[name]   filename == f.Name
+//@ ensures[line]   1 <= line && line <= len(f.Lines) && f.Lines[line-1] <= offset
+//@ ensures[next]   line < len(f.Lines) ==> offset < f.Lines[line]
+//@ ensures[column] column == offset-f.Lines[line-1]+1 && column >= 1
+//@ property C16
+
+//@ func (*SourceFile).position
+//@ params f p
+//@ results pos
+//@ requires validFile(f) && f.Base <= int(p) && int(p) <= f.Base+f.Size
+//@ ensures[offset] pos.Offset == int(p)-f.Base && pos.Filename == f.Name
+//@ ensures[line]   1 <= pos.Line && pos.Line <= len(f.Lines) && f.Lines[pos.Line-1] <= pos.Offset
+//@ ensures[next]   pos.Line < len(f.Lines) ==> pos.Offset < f.Lines[pos.Line]
+//@ ensures[column] pos.Column == pos.Offset-f.Lines[pos.Line-1]+1 && pos.Column >= 1
+//@ property C16
+
+//@ func (*SourceFile).Position
+//@ params f p
+//@ results pos
+//@ requires validFile(f) && (p == NoPos || inFile(f, p))
+//@ ensures[nopos]  p == NoPos ==> pos.Line == 0 && pos.Column == 0 && pos.Offset == 0
+//@ ensures[offset] p != NoPos ==> pos.Offset == int(p)-f.Base && pos.Filename == f.Name
+//@ ensures[line]   p != NoPos ==> 1 <= pos.Line && pos.Line <= len(f.Lines) && f.Lines[pos.Line-1] <= pos.Offset
+//@ ensures[next]   p != NoPos && pos.Line < len(f.Lines) ==> pos.Offset < f.Lines[pos.Line]
+//@ ensures[column] p != NoPos ==> pos.Column == pos.Offset-f.Lines[pos.Line-1]+1 && pos.Column >= 1
+//@ property C16
+
+//@ func (*SourceFile).AddLine
+//@ params f offset
+//@ requires validFile(f)
+//@ ensures[inv]   validFile(f)
+//@ ensures[grow]  len(f.Lines) == old(len(f.Lines)) || (len(f.Lines) == old(len(f.Lines))+1 && f.Lines[len(f.Lines)-1] == offset)
+//@ ensures[keep]  forall k int :: 0 <= k && k < old(len(f.Lines)) ==> f.Lines[k] == old(verifrt.Snap(f.Lines))[k]
+//@ modifies f.Lines, f.Lines[*]
+//@ property C16
+
+//@ func (*SourceFile).Offset
+//@ params f p
+//@ results r
+//@ requires validFile(f) && inFile(f, p)
+//@ ensures r == int(p)-f.Base && 0 <= r && r <= f.Size
+//@ property C16
+
+//@ func searchFiles
+//@ params a x
+//@ results r
+//@ requires sortedFiles(a)
+//@ ensures[range] -1 <= r && r < len(a)
+//@ ensures[at]    r >= 0 ==> a[r].Base <= x
+//@ ensures[next]  r+1 < len(a) ==> a[r+1].Base > x
+//@ property C16
+
+//@ func (*SourceFileSet).file
+//@ params s p
+//@ results f
+//@ requires validFileSet(s)
+//@ ensures[inside]   f != nil ==> validFile(f) && inFile(f, p)
+//@ ensures[complete] forall k int :: 0 <= k && k < len(s.Files) && inFile(s.Files[k], p) ==> f != nil
+//@ ensures[inv]      validFileSet(s)
+//@ split returns
+//@ modifies s.LastFile
+//@ property C16
+
+//@ func (*SourceFileSet).Position
+//@ params s p
+//@ results pos
+//@ requires validFileSet(s)
+//@ ensures[inside] pos.Line > 0 ==> exists k int :: 0 <= k && k < len(s.Files) + 1 && pos.Offset >= 0
+//@ ensures[line]   pos.Line >= 0 && pos.Column >= 0 && (pos.Line > 0 ==> pos.Column >= 1)
+//@ modifies s.LastFile
+//@ property C16
